@@ -341,6 +341,37 @@ type Exec struct {
 	frameChk bool
 }
 
+var splitGoals bool
+
+// distribute splits a goal into its conjuncts, pushing through implications and universal quantifiers.
+func distribute(g string) []string {
+	p := splitSexp(g)
+	if len(p) == 0 {
+		return []string{g}
+	}
+	switch {
+	case p[0] == "and":
+		var out []string
+		for _, c := range p[1:] {
+			out = append(out, distribute(c)...)
+		}
+		return out
+	case p[0] == "=>" && len(p) == 3:
+		var out []string
+		for _, c := range distribute(p[2]) {
+			out = append(out, "(=> "+p[1]+" "+c+")")
+		}
+		return out
+	case p[0] == "forall" && len(p) == 3:
+		var out []string
+		for _, c := range distribute(p[2]) {
+			out = append(out, "(forall "+p[1]+" "+c+")")
+		}
+		return out
+	}
+	return []string{g}
+}
+
 type unsupported string
 
 func (ex *Exec) unsup(f string, a ...interface{}) {
@@ -387,6 +418,15 @@ func (ex *Exec) oblige(st *State, fnKey, kind string, tags []string, goal T, whe
 	name := shortKey(ex.c, fnKey) + "#" + kind
 	if ex.want != nil && !ex.want(name, tags) {
 		return
+	}
+	if splitGoals {
+		parts := distribute(goal.S)
+		if len(parts) > 1 {
+			for i, part := range parts {
+				ex.obls = append(ex.obls, &Obligation{Name: fmt.Sprintf("%s/%d", name, i+1), Func: fnKey, Kind: kind, Tags: tags, Cmds: st.cmds[:len(st.cmds):len(st.cmds)], Goal: T{part, SBool}, Where: where, PathID: st.pathID, Src: part})
+			}
+			return
+		}
 	}
 	ex.obls = append(ex.obls, &Obligation{Name: name, Func: fnKey, Kind: kind, Tags: tags, Cmds: st.cmds[:len(st.cmds):len(st.cmds)], Goal: goal, Where: where, PathID: st.pathID, Src: src})
 }
